@@ -204,6 +204,10 @@ func checkC01(c *Check) {
 	c.Rule("R7", "E3 provenance", "the tree is routeTrees[req.Method]; a missing tree or a failed match goes to not-found; Match strips leading slashes and starts at cursor 0; the cursor splits at the first '/'", 4)
 	checkDispatchEntry(c)
 
+	// ---- R11 what is dispatched is what this request's lookup found
+	c.Rule("R11", "shared with C07 (R1)", "a leaf is dispatched only as the result of this request's own shortcut lookup or tree match, and the not-found chain runs only after the tree was asked: no cache of earlier outcomes stands between registration and dispatch", 6)
+	c.Share("C07", []string{"R1"}, 6)
+
 	// ---- R10 the shortcut dispatches exactly what the tree would
 	c.Rule("R10", "shared with C10 (R1, R2, R4, R5)", "a request answered by the shortcut table is one the tree admits for the same leaf: insert only static non-optional leaves under their own route text, look up by the unmodified (method, path), static nodes compare their canonical text exactly", 8)
 	c.Share("C10", []string{"R1", "R2", "R4", "R5"}, 8)
